@@ -273,3 +273,12 @@ def run(ctx):
 
 
 SWEEP = ["test_executor.cpp"]
+
+
+# name anchors (validated by tools/rename_sweep.py; a vanished name is exit 2, see core.check_anchor_names)
+ANCHORS = {
+    'enqueue_task': ['^babylon::ThreadPoolExecutor(<|$)'],
+    'keep_execute': ['^babylon::ThreadPoolExecutor(<|$)'],
+    'local': ['^babylon::EnumerableThreadLocal(<|$)'],
+    'try_pop': ['^babylon::ConcurrentBoundedQueue(<|$)'],
+}
